@@ -347,6 +347,200 @@ def substring_bound_rule(prog, run, rid):
                            what="" if okp else "a start position at or beyond the end reads outside the buffer (an empty string has size 0)")
 
 
+def size_ge1(prog, f, n, depth=4):
+    """why the size expression n of function f is at least 1, or None: a sum with a literal >= 1, a literal >= 1, bufferSize_ of a live
+    string (>= 1 by R1), or a parameter / single-assignment local all of whose sources are (call sites are followed `depth` levels)"""
+    o = f.strip(n)
+    if o is None or depth < 0:
+        return None
+    k = o["k"]
+    if k == "IntegerLiteral":
+        return "literal %s" % o["v"] if int(o["v"]) >= 1 else None
+    if k == "BinaryOperator" and o.get("op") == "+":
+        for side in (f.node(o["lhs"]), f.node(o["rhs"])):
+            t = f.strip(side)
+            if t is not None and t["k"] == "IntegerLiteral" and int(t["v"]) >= 1:
+                return "a length plus %s" % t["v"]
+        for side in (f.node(o["lhs"]), f.node(o["rhs"])):
+            w = size_ge1(prog, f, side, depth - 1)
+            if w:
+                return "a sum with " + w
+        return None
+    if k == "MemberExpr" and o.get("name") == "bufferSize_":
+        return "bufferSize_ of a live string (>= 1 by R1)"
+    if k == "ParenExpr":
+        return size_ge1(prog, f, o["c"][0], depth)
+    if k == "DeclRefExpr":
+        si = f.single_inits()
+        if o.get("did") in si:
+            return size_ge1(prog, f, si[o["did"]], depth - 1)
+        idx = [i for i, q in enumerate(f.params) if q["name"] == o.get("name")]
+        if idx:
+            # (a parameter that the function itself re-assigns is not followed)
+            for x in f.walk():
+                if x["k"] in ("BinaryOperator", "CompoundAssignOperator") and x.get("op", "").endswith("=") and x["op"] not in ("==", "!=", "<=", ">="):
+                    t = f.strip(f.node(x["lhs"]))
+                    if t is not None and t["k"] == "DeclRefExpr" and t.get("name") == o["name"]:
+                        return None
+            sites = []
+            for g in prog.functions.values():
+                for c in g.calls():
+                    cc = c.get("callee")
+                    if cc and cc.get("mn") == f.mn:
+                        sites.append((g, c))
+            if not sites:
+                return None
+            for g, c in sites:
+                if g.mn == f.mn:
+                    continue
+                a = g.args(c)
+                if len(a) <= idx[0] or not size_ge1(prog, g, a[idx[0]], depth - 1):
+                    return None
+            return "parameter %s: each of the %d call sites of %s passes a size >= 1" % (o["name"], len(sites), f.qn)
+    return None
+
+
+def buffer_family_rule(prog, run, rid, family):
+    """the functions that own buffer_/bufferSize_, folded whole from a string that owns a buffer and from one that owns none (allocation,
+    release and copy primitives are recording stubs): the old buffer is released exactly once with its recorded size, the string ends up
+    owning exactly one buffer whose allocated size is the recorded size, nothing allocated on the way is lost, and the new buffer is
+    terminated inside its extent"""
+    INL = {g.qn for g in prog.functions.values() if g.qn.startswith(SS + "::")}
+    names = sorted({q.split("::")[-1] for q in family} - {SS})
+
+    def fold(f, old, args):
+        log = {"alloc": [], "free": [], "copy": [], "install": []}
+        ctr = [5000]
+
+        def alloc(n, *a_):
+            ctr[0] += 100
+            log["alloc"].append((ctr[0], n))
+            return ctr[0]
+        env = {"buffer_": old[0], "bufferSize_": old[1]}
+        env.update(args)
+        ev = Evaluator(prog, f, env=env, calls={
+            SS + "::allocStringBuffer": alloc,
+            SS + "::deallocStringBuffer": lambda p_, n, *a_: log["free"].append((p_, n)),
+            SS + "::StrNCpy": lambda d, s_, n: (log["copy"].append((d, s_, n)), d)[1],
+            SS + "::StrLen": lambda s_: 5,
+            SS + "::size": lambda *a_: 5,
+            SS + "::getBuffer": lambda *a_: 777})
+        ev.heap_mode = True
+        ev.inline = INL - set(ev.calls)
+        ev.optional_stubs = set(ev.calls)
+        ev.run_blocks(f.entry, max_steps=600)
+        skipped = [t for t in ev.trace if t[0] == "call" and str(t[1]).startswith(SS + "::") and t[1] not in ev.calls]
+        if skipped:
+            raise Unknown("call of %s was not folded" % skipped[0][1])
+        zero = sorted(k_ for k_, v_ in ev.stores if k_.startswith("@") and "[" in k_ and v_ == 0)
+        return log, (ev.env.get("buffer_"), ev.env.get("bufferSize_")), zero, getattr(ev, "ret", None)
+
+    nfold = 0
+    for f in sorted(prog.functions.values(), key=lambda g: (g.qn, len(g.params), g.params[0]["ct"] if g.params else "")):
+        if f.cls != SS or f.name not in names or not f.file.startswith(("src/", "include/")):
+            continue
+        run.analysed(f)
+        sig = ", ".join(q["ct"] for q in f.params)
+        args, size, ext = {}, None, None
+        for q in f.params:
+            ct = q["ct"].replace(" ", "")
+            if ct == "char*":
+                args[q["name"]], ext = 8000, 8000
+            elif ct == "constchar*":
+                args[q["name"]] = 777
+            elif ct in ("size_t", "unsignedlong", "unsignedint", "unsignedlonglong"):
+                args[q["name"]], size = 13, 13
+            elif ct.startswith("constSimpleString&"):
+                args[q["name"] + ".buffer_"], args[q["name"] + ".bufferSize_"] = 777, 6
+            else:
+                raise AnalysisBroken("%s.%s: %s(%s): unexpected parameter type" % (run.pid, rid, f.name, sig))
+        want_size = 1 if f.name == "setInternalBufferAsEmptyString" else size if size is not None else 6
+        for old in ((9000, 7), (0, 0)):
+            nfold += 1
+            try:
+                log, fin, zero, _ = fold(f, old, args)
+            except Unknown as u:
+                raise AnalysisBroken("%s.%s: %s(%s) cannot be folded: %s" % (run.pid, rid, f.name, sig, u))
+            why = ""
+            wf = [old] if old[0] else []
+            if log["free"] != wf:
+                why = "releases %s (expected: %s)" % (log["free"], wf or "nothing, the string owns no buffer")
+            elif f.name == "deallocateInternalBuffer":
+                if fin != (0, 0) or log["alloc"]:
+                    why = "leaves (buffer, size) = %s behind (expected: none, 0)" % (fin,)
+            elif ext is not None:
+                if fin != (ext, size) or log["alloc"]:
+                    why = "records (buffer, size) = %s for the buffer %d of %d bytes it was given" % (fin, ext, size)
+            else:
+                al = dict(log["alloc"])
+                if len(log["alloc"]) != 1:
+                    why = "%d allocations (expected one): a buffer is lost or the string owns none" % len(log["alloc"])
+                elif fin[0] not in al:
+                    why = "ends up with buffer %s, which was not allocated here" % (fin[0],)
+                elif al[fin[0]] != fin[1]:
+                    why = "records size %s for a buffer allocated with %s: it would be released with the wrong size" % (fin[1], al[fin[0]])
+                elif fin[1] != want_size:
+                    why = "allocates %s bytes (expected %s)" % (fin[1], want_size)
+                elif f.name.startswith("copyBuffer") and log["copy"] != [(fin[0], 777, want_size)]:
+                    why = "copies %s (expected: %d bytes of the source into the new buffer)" % (log["copy"], want_size)
+                elif "@%d[%d]" % (fin[0], want_size - 1 if f.name.startswith("copyBuffer") else 0) not in zero:
+                    why = "the new buffer is not terminated (zero stores: %s)" % zero
+            run.ob(rid, "%s(%s) from a string that owns %s: the old buffer is released once with its recorded size; the recorded size is the allocated size of the one buffer owned afterwards" % (f.name, sig, "a 7-byte buffer" if old[0] else "no buffer"),
+                   f.site, not why, witness={"log": {k_: v_ for k_, v_ in log.items() if v_}, "final": fin}, what=why)
+    if nfold < 10:
+        raise AnalysisBroken("%s.%s: only %d folds of the internal-buffer family (%s)" % (run.pid, rid, nfold, ", ".join(names)))
+    # the two allocating helpers on their own
+    for nm, args, want in (("getEmptyString", {}, 1), ("copyToNewBuffer", None, 13)):
+        g = prog.fn(SS + "::" + nm)
+        run.analysed(g)
+        if args is None:
+            args = {g.params[0]["name"]: 777, g.params[1]["name"]: 13}
+        try:
+            log, fin, zero, ret = fold(g, (9000, 7), args)
+        except Unknown as u:
+            raise AnalysisBroken("%s.%s: %s cannot be folded: %s" % (run.pid, rid, nm, u))
+        ok = len(log["alloc"]) == 1 and log["alloc"][0][1] == want and ret == log["alloc"][0][0] and "@%d[%d]" % (log["alloc"][0][0], want - 1) in zero and not log["free"]
+        ok = ok and (nm != "copyToNewBuffer" or log["copy"] == [(ret, 777, 13)])
+        run.ob(rid, "%s allocates exactly %s, terminates the buffer at its last byte and returns it" % (nm, "1 byte" if want == 1 else "the size it is given"), g.site, ok, witness={"log": log, "returns": ret, "zero": zero})
+    # callers outside the family that install a buffer they built themselves
+    for f in prog.functions.values():
+        if not f.file.startswith(("src/", "include/")) or f.qn in family:
+            continue
+        if not any((prog.callee_name(f, c) or "") == SS + "::setInternalBufferTo" for c in f.calls()):
+            continue
+        run.analysed(f)
+        if f.qn == SS + "::replace":
+            run.ob(rid, "%s installs a buffer it allocated with the installed size (decided by the replace fold of R2 on every bounded case)" % f.qn, f.site, True)
+            continue
+        inst = []
+        log = {"alloc": []}
+        ctr = [5000]
+
+        def alloc(n, *a_):
+            ctr[0] += 100
+            log["alloc"].append((ctr[0], n))
+            return ctr[0]
+        env = {"buffer_": 9000, "bufferSize_": 4}
+        for q in f.params:
+            env[q["name"]] = 777
+        ev = Evaluator(prog, f, env=env, calls={
+            SS + "::allocStringBuffer": alloc, SS + "::deallocStringBuffer": lambda *a_: None,
+            SS + "::StrNCpy": lambda d, *a_: d, SS + "::StrLen": lambda s_: 5, SS + "::size": lambda *a_: 3, SS + "::getBuffer": lambda *a_: 9000,
+            SS + "::setInternalBufferTo": lambda b_, n: inst.append((b_, n))})
+        ev.heap_mode = True
+        ev.inline = INL - set(ev.calls) - family
+        ev.optional_stubs = set(ev.calls)
+        try:
+            ev.run_blocks(f.entry, max_steps=600)
+        except Unknown as u:
+            raise AnalysisBroken("%s.%s: %s cannot be folded: %s" % (run.pid, rid, f.qn, u))
+        al = dict(log["alloc"])
+        ok = len(inst) == 1 and inst[0][0] in al and al[inst[0][0]] == inst[0][1] and len(al) == 1
+        run.ob(rid, "%s hands setInternalBufferTo the one buffer it allocated, with the size it was allocated with" % f.qn, f.site, ok, witness={"allocated": log["alloc"], "installed": inst},
+               what="" if ok else "the recorded size differs from the allocated size: the buffer would be released with the wrong size")
+
+
+
 def check(ctx, run):
     prog = ctx.program()
     DEEP = 1 if ctx.thorough else 0      # thorough tier: one more character in every folded string domain
@@ -371,73 +565,7 @@ def check(ctx, run):
                 continue    # content write buffer_[i] = ...
             ws.add(f.qn)
         run.ob("R1", "%s is (re)assigned only by the internal-buffer family" % fld, "include/CppUTest/SimpleString.h:%s::%s" % (SS, fld), ws <= FAMILY, witness=sorted(ws))
-    da = prog.fn(SS + "::deallocateInternalBuffer")
-    run.analysed(da)
-    for p in enumerate_paths(da):
-        has = p.val().get("buffer_")
-        cs = [R(da, c) for c in path_calls(prog, da, p) if "deallocStringBuffer" in R(da, c)]
-        a = [(l, render(da, r)) for l, r, n in assignments(da, p)]
-        if has:
-            ok = len(cs) == 1 and cs[0].startswith("deallocStringBuffer(buffer_, bufferSize_,") and ("buffer_", "NULL") in a and ("bufferSize_", "0") in a
-        else:
-            ok = not cs
-        run.ob("R1", "deallocateInternalBuffer [%s]: frees with the recorded size once, then forgets the buffer" % p.describe(da), da.site, ok, witness={"free": cs, "assign": a})
-    setters = {
-        "setInternalBufferAsEmptyString": ("1", "getEmptyString()"),
-        "setInternalBufferToNewBuffer": (None, None),
-        "setInternalBufferTo": (None, None),
-    }
-    for f in prog.functions.values():
-        if f.cls != SS or f.name not in ("setInternalBufferAsEmptyString", "setInternalBufferToNewBuffer", "setInternalBufferTo", "copyBufferToNewInternalBuffer"):
-            continue
-        a = [(l, R(f, r)) for l, r, n in assignments(f) if l in ("buffer_", "bufferSize_")]
-        if not a:
-            continue    # the 1-argument overloads only delegate
-        run.analysed(f)
-        ok = True
-        why = ""
-        for p in enumerate_paths(f):
-            seq = []
-            for e in p.trace:
-                if isinstance(e, int):
-                    n = f.nodes[e]
-                    if n["k"] == "CXXMemberCallExpr" and (prog.callee_name(f, n) or "") == SS + "::deallocateInternalBuffer":
-                        seq.append("release")
-                    if n["k"] == "BinaryOperator" and n.get("op") == "=" and render(f, f.node(n["lhs"])) in ("buffer_", "bufferSize_"):
-                        seq.append(render(f, f.node(n["lhs"])))
-            if seq[:1] != ["release"] or seq.count("release") != 1 or sorted(seq[1:]) != ["bufferSize_", "buffer_"]:
-                ok, why = False, "sequence is %s (expected: release the old buffer once, then set size and buffer)" % seq
-        d = dict(a)
-        pn = [q["name"] for q in f.params]
-        if f.name == "setInternalBufferAsEmptyString":
-            pair = d.get("bufferSize_") == "1" and d.get("buffer_") == "getEmptyString()"
-        elif f.name == "setInternalBufferToNewBuffer":
-            pair = d.get("bufferSize_") == pn[0] and (d.get("buffer_") or "").startswith("allocStringBuffer(bufferSize_,")
-        elif f.name == "copyBufferToNewInternalBuffer":
-            pair = d.get("bufferSize_") == pn[1] and d.get("buffer_") == "copyToNewBuffer(%s, bufferSize_)" % pn[0]
-        else:
-            pair = d.get("bufferSize_") == pn[1] and d.get("buffer_") == pn[0]
-        if not pair:
-            ok, why = False, "size and buffer are not paired: %s" % d
-        run.ob("R1", "%s(%s) releases first and pairs the recorded size with the new buffer" % (f.name, ", ".join(q["ct"] for q in f.params)), f.site, ok, witness=d, what=why)
-    ge = prog.fn(SS + "::getEmptyString")
-    cs = [R(ge, c) for c in ge.calls() if (prog.callee_name(ge, c) or "") == SS + "::allocStringBuffer"]
-    run.ob("R1", "the empty string is a 1-byte buffer", ge.site, len(cs) == 1 and cs[0].startswith("allocStringBuffer(1,"), witness=cs)
-    cn = prog.fn(SS + "::copyToNewBuffer")
-    cs = [R(cn, c) for c in cn.calls() if (prog.callee_name(cn, c) or "") == SS + "::allocStringBuffer"]
-    run.ob("R1", "copyToNewBuffer allocates exactly the size it is given", cn.site, len(cs) == 1 and cs[0].startswith("allocStringBuffer(%s," % cn.params[1]["name"]), witness=cs)
-    for f in prog.functions.values():
-        if not f.file.startswith(("src/", "include/")):
-            continue
-        for c in f.calls():
-            if (prog.callee_name(f, c) or "") == SS + "::setInternalBufferTo":
-                b, s = [render(f, x) for x in f.args(c)]
-                ini = {k: R(f, v) for k, v in local_inits(f).items()}
-                src = ini.get(b, "")
-                ok = src.startswith("allocStringBuffer(%s," % s) or src.endswith(", %s)" % s) and src.startswith("copyToNewBuffer(")
-                run.analysed(f)
-                run.ob("R1", "%s hands setInternalBufferTo a buffer allocated with the same size variable" % f.qn, f.site, ok, witness={"buffer": b, "allocated_by": src, "size": s},
-                       what="" if ok else "the recorded size differs from the allocated size: the buffer would be released with the wrong size")
+    buffer_family_rule(prog, run, "R1", FAMILY)
     ds = prog.fn(SS + "::~" + SS)
     cs = [(prog.callee_name(ds, c) or "") for c in ds.calls()]
     run.ob("R1", "the destructor releases the buffer once", ds.site, cs.count(SS + "::deallocateInternalBuffer") == 1, witness=cs)
@@ -682,18 +810,9 @@ def check(ctx, run):
         for c in f.calls():
             if (prog.callee_name(f, c) or "") == SS + "::copyToNewBuffer":
                 a = f.args(c)[1]
-                r = render(f, a)
-                src = rx(f, a)
-                # bufferSize_ of a live string is >= 1 by R1; otherwise the origin of the expression must add 1
-                o = f.strip(a)
-                ok = bool(re.search(r"\+ 1\)|\(1 \+ ", src)) or (o is not None and o["k"] == "MemberExpr" and o.get("name") == "bufferSize_")
-                run.ob("R4", "%s calls copyToNewBuffer with a size >= 1 (%s)" % (f.qn, r), f.site, ok, witness=src,
-                       what="" if ok else "copyToNewBuffer writes the terminator at bufferSize-1: a size of 0 writes before the buffer")
-    for f in prog.functions.values():
-        if f.cls == SS and f.name == "copyBufferToNewInternalBuffer" and len(f.params) == 1:
-            cs = [rx(f, c) for c in f.calls() if (prog.callee_name(f, c) or "") == SS + "::copyBufferToNewInternalBuffer" and len(f.args(c)) == 2]
-            ok = len(cs) == 1 and bool(re.search(r"\+ 1\)|\(1 \+ ", cs[0]))
-            run.ob("R4", "copyBufferToNewInternalBuffer(%s) sizes the copy as length + 1" % f.params[0]["ct"], f.site, ok, witness=cs)
+                why = size_ge1(prog, f, a)
+                run.ob("R4", "%s calls copyToNewBuffer with a size >= 1 (%s)" % (f.qn, render(f, a)), f.site, why is not None, witness=why or rx(f, a),
+                       what="" if why else "copyToNewBuffer writes the terminator at bufferSize-1: a size of 0 writes before the buffer")
     # subString(begin, amount) folded with the new string object modelled (its buffer comes from the allocation stub): the text is the
     # textbook slice, the buffer is sized for it, every write stays inside it and nothing is read outside the source
     sub = [f for f in prog.fns(SS + "::subString") if len(f.params) == 2][0]
